@@ -230,20 +230,47 @@ func init() {
 								if kk, eq, ok := cmpWith(linfo, e, func(x ast.Expr) bool { return FieldOfSelector(linfo, x) == typeFld }); ok {
 									return tri(kk == k, eq)
 								}
-								// pred(v.Type): evaluate the helper under the same assumption
+								// pred(v.Type), or a predicate on the node itself — v.pred() / pred(v): evaluate the helper
+								// under the same assumption
 								ce, ok := ast.Unparen(e).(*ast.CallExpr)
-								if !ok || len(ce.Args) != 1 || FieldOfSelector(linfo, ce.Args[0]) != typeFld {
+								if !ok {
 									return -1
 								}
 								g := originOf(Callee(linfo, ce))
-								if g == nil || decls[g] == nil || decls[g].Body == nil || decls[g].Type.Params == nil || len(decls[g].Type.Params.List) != 1 || len(decls[g].Type.Params.List[0].Names) != 1 {
+								if g == nil || decls[g] == nil || decls[g].Body == nil {
 									return -1
 								}
 								gd := decls[g]
-								param := linfo.Defs[gd.Type.Params.List[0].Names[0]]
+								var param types.Object // the helper's parameter that IS the type
+								var node types.Object  // … or its parameter / receiver that is the NODE
+								switch {
+								case len(ce.Args) == 1 && FieldOfSelector(linfo, ce.Args[0]) == typeFld:
+									if gd.Type.Params == nil || len(gd.Type.Params.List) != 1 || len(gd.Type.Params.List[0].Names) != 1 {
+										return -1
+									}
+									param = linfo.Defs[gd.Type.Params.List[0].Names[0]]
+								case len(ce.Args) == 0 && gd.Recv != nil && len(gd.Recv.List) == 1 && len(gd.Recv.List[0].Names) == 1:
+									if se, ok := ast.Unparen(ce.Fun).(*ast.SelectorExpr); !ok || !isLValPtr(c, linfo.TypeOf(se.X)) {
+										return -1
+									}
+									node = linfo.Defs[gd.Recv.List[0].Names[0]]
+								case len(ce.Args) == 1 && isLValPtr(c, linfo.TypeOf(ce.Args[0])) && gd.Type.Params != nil && len(gd.Type.Params.List) == 1 && len(gd.Type.Params.List[0].Names) == 1:
+									node = linfo.Defs[gd.Type.Params.List[0].Names[0]]
+								default:
+									return -1
+								}
+								if param == nil && node == nil {
+									return -1
+								}
 								gfc := c.cfgOf(FuncUnit{g, gd, lp}, nil)
 								greach := gfc.reachableUnder(func(e ast.Expr) int {
-									if kk, eq, ok := cmpWith(linfo, e, func(x ast.Expr) bool { return identObj(linfo, x) == param && param != nil }); ok {
+									if kk, eq, ok := cmpWith(linfo, e, func(x ast.Expr) bool {
+										if param != nil {
+											return identObj(linfo, x) == param
+										}
+										se, ok := ast.Unparen(x).(*ast.SelectorExpr)
+										return ok && FieldOfSelector(linfo, se) == typeFld && identObj(linfo, se.X) == node
+									}); ok {
 										return tri(kk == k, eq)
 									}
 									return -1
